@@ -25,6 +25,11 @@ cPatBlkSuffix == <<";","}">>
 cWidePrefix == <<"a", ";">> \o [i \in 1..4093 |-> " "]
 cCmtPrefix == <<"a", " ", "/", "*", "*", "/", " ">>
 cSqPrefix == <<"a", " ", cSQ, "q", cSQ, "+">>
+\* a tab INSIDE a block comment / a single-quoted piece, then on the same line the opening quote of a multi-line string whose
+\* first continuation line already has eight blanks: the column of that quote counts the tab as reaching the next multiple of 8
+cCmtTabPrefix == <<"a", " ", "/", "*", cTAB, "*", "/", " ", cDQ, "x", cLF>> \o [i \in 1..8 |-> " "]
+cSqTabPrefix == <<"a", " ", cSQ, cTAB, "q", cSQ, "+", cDQ, "x", cLF>> \o [i \in 1..8 |-> " "]
+cDqClose == <<cDQ, ";">>
 cMbPrefix == <<"E", " ", "/", "*", "E", cLF, "*", "/", cSQ, "E", cLF, cSQ, cTAB>>
 \* token level: whole lexemes
 TokAlphabet == { <<"k">>, <<"a","r","g">>, <<cDQ,"s"," ",cLF," "," ","t",cDQ>>, <<cSQ,"q",cSQ>>, <<"+">>, <<cDQ,"+",cDQ>>, <<";">>, <<"{">>, <<"}">>,
